@@ -340,7 +340,7 @@ def _eligible(d: _Def):
     if a.kwarg:
         # `def msg(**fields): return {"v": 1, **fields}`: only as a one-expression helper
         b = _body_wo_doc(fn)
-        if not (len(b) == 1 and isinstance(b[0], ast.Return) and b[0].value is not None):
+        if not (len(b) == 1 and (isinstance(b[0], ast.Return) and b[0].value is not None or isinstance(b[0], ast.Expr) and isinstance(b[0].value, ast.Call))):
             return False
     for dec in fn.decorator_list:
         if not (isinstance(dec, ast.Name) and dec.id in ("staticmethod", "classmethod")):
@@ -374,6 +374,18 @@ class _Rename(ast.NodeTransformer):
             return copy.deepcopy(self.exprs[n.id])
         if n.id in self.mapping:
             return ast.copy_location(ast.Name(id=self.mapping[n.id], ctx=n.ctx), n)
+        return n
+
+    def visit_Call(self, n):
+        n = self.generic_visit(n)
+        # `f(a, **{"k": v})` (a `**kwargs` parameter replaced by what the caller passed) is `f(a, k=v)`
+        kws = []
+        for kw in n.keywords:
+            if kw.arg is None and isinstance(kw.value, ast.Dict) and all(isinstance(k, ast.Constant) and isinstance(k.value, str) for k in kw.value.keys):
+                kws.extend(ast.keyword(arg=k.value, value=v) for k, v in zip(kw.value.keys, kw.value.values))
+            else:
+                kws.append(kw)
+        n.keywords = kws
         return n
 
     def visit_FunctionDef(self, n):
